@@ -14,12 +14,25 @@ import (
 //	nV        number of supplied values
 //	convCode  converters as decimal digit pairs (inputs, outputs), e.g. 11 = one
 //	          1-in/1-out converter, 1121 = (1,1) and (2,1), 0 = none
-//	form      0 built, 1 struct, 2 *struct, 3 positional where the labels allow it
-//	          (else struct), 9 symbolic choice per function
+//	form      0 positional where the labels allow it (else struct), 1 struct, 2 *struct,
+//	          3 built (BuildFunc), 9 symbolic choice per function
 //	errMode   0 converters declare no error, 1 converters declare an error and
-//	          fail symbolically
+//	          fail symbolically; +2: converters are symbolically run-once;
+//	          +4: type-only entries of one list need only differ in (type, subtype)
+//	convCode  digit 9 in an input position means a provider (no inputs)
 func hTemplate(fam, nT, nV, convCode, form, errMode int) *hWorld {
+	if fam >= 100 {
+		return hSkeleton(fam-100, form, errMode)
+	}
 	w := &hWorld{}
+	hMaxType = -1
+	symOnce := errMode&2 != 0
+	weakDistinct := errMode&4 != 0
+	errMode = errMode & 1
+	distinct := hDistinct
+	if weakDistinct {
+		distinct = hDistinctKeys
+	}
 	var digits []int
 	for c := convCode; c > 0; c /= 10 {
 		digits = append([]int{c % 10}, digits...)
@@ -27,10 +40,9 @@ func hTemplate(fam, nT, nV, convCode, form, errMode int) *hWorld {
 	pickForm := func(tag string, ls1, ls2 []hLabel) int {
 		f := form
 		if form == 9 {
-			f = vnChoice(tag+".form", 4)
+			f = hPick(tag+".form", 4)
 		}
-		if f == hFormPositional || form == 3 {
-			f = hFormPositional
+		if f == hFormPositional {
 			for _, l := range append(append([]hLabel{}, ls1...), ls2...) {
 				if l.Name != "" || l.Sub != "" {
 					if form == 9 {
@@ -46,7 +58,7 @@ func hTemplate(fam, nT, nV, convCode, form, errMode int) *hWorld {
 	for i := 0; i < nT; i++ {
 		w.Target.In = append(w.Target.In, hSymLabel(fam, fmt.Sprintf("t%d", i), false))
 	}
-	if !hDistinct(w.Target.In) {
+	if !distinct(w.Target.In) {
 		vnAssume(false)
 	}
 	w.Target.Form = pickForm("t", w.Target.In, nil)
@@ -62,14 +74,21 @@ func hTemplate(fam, nT, nV, convCode, form, errMode int) *hWorld {
 	for k := 0; k+1 < len(digits); k += 2 {
 		id := k/2 + 1
 		c := hFuncSpec{ID: id}
-		for i := 0; i < digits[k]; i++ {
+		nIn := digits[k]
+		if nIn == 9 {
+			nIn = 0 // provider
+		}
+		for i := 0; i < nIn; i++ {
 			c.In = append(c.In, hSymLabel(fam, fmt.Sprintf("c%di%d", id, i), false))
 		}
 		for j := 0; j < digits[k+1]; j++ {
 			c.Out = append(c.Out, hSymLabel(fam, fmt.Sprintf("c%do%d", id, j), false))
 		}
-		if !hDistinct(c.In) || !hDistinct(c.Out) {
+		if !distinct(c.In) || !distinct(c.Out) {
 			vnAssume(false)
+		}
+		if symOnce && vnBool("once", id) {
+			c.Once = true
 		}
 		c.Form = pickForm(fmt.Sprintf("c%d", id), c.In, c.Out)
 		if errMode == 1 {
@@ -187,9 +206,9 @@ func (w *hWorld) classifyProvenance(par hLabel, srcs []hVal) string {
 }
 
 // HarnessC01 — every injected value is a label- and type-correct binding.
-func HarnessC01(fam, nT, nV, convCode, form, sv int) {
+func HarnessC01(fam, nT, nV, convCode, form, sv, mode int) {
 	hSchedVector(sv)
-	w := hTemplate(fam, nT, nV, convCode, form, 0)
+	w := hTemplate(fam, nT, nV, convCode, form, mode&^1)
 	vnNote(w.String())
 	vnOnDivergence("", "") // divergence is C06's subject
 	_, built, panicked, _ := w.hCall()
@@ -209,9 +228,9 @@ func HarnessC01(fam, nT, nV, convCode, form, sv int) {
 }
 
 // HarnessC02 — unsatisfiable calls are refused.
-func HarnessC02(fam, nT, nV, convCode, form, sv int) {
+func HarnessC02(fam, nT, nV, convCode, form, sv, mode int) {
 	hSchedVector(sv)
-	w := hTemplate(fam, nT, nV, convCode, form, 0)
+	w := hTemplate(fam, nT, nV, convCode, form, mode&^1)
 	vnNote(w.String())
 	der, _ := hDerivable(w, hCompat)
 	under := false
